@@ -190,7 +190,7 @@ PROPS = {
         level="proof",
         needs_bita=True,
         required_theorems=["compress_conforms", "roundtrip", "cli_roundtrip", "roundtrip_over_http", "stages_preserve_order", "temp_file_complete"],
-        suites=dict(quick=[("py", "c01_roundtrip")], thorough=[("py", "c01_roundtrip"), ("py", "c12_determinism")]),
+        suites=dict(quick=[("py", "c01_roundtrip"), ("l1", "c08-http")], thorough=[("py", "c01_roundtrip"), ("py", "c12_determinism"), ("l1", "c08-http")]),
         rule="random sources (empty, 1 byte, zeros, constant, repetitive blocks, text, random; up to 20 kB) x random valid configs x hash "
              "lengths x none/brotli levels x buffer counts x file/stdin; oracles: clone output == source, info reports size and Blake2 "
              "checksum, temp file removed, CLI archive == library archive; model: archive digest (both writers) and clone result/output",
@@ -259,7 +259,7 @@ PROPS = {
         level="proof",
         needs_bita=True,
         required_theorems=["rerun_completes", "rerun_completes_any_content", "cli_rerun_completes", "failed_write_not_success", "no_fault_success", "clone_steps_as_modelled"],
-        suites=dict(quick=[("py", "c05_crash")], thorough=[("py", "c05_crash")]),
+        suites=dict(quick=[("py", "c05_crash"), ("l1", "c03")], thorough=[("py", "c05_crash"), ("l1", "c03")]),
         rule="scenarios (plain / in-place, with/without seed file, none/brotli) x crash points (write index x tear offsets {0, size, random, 1, "
              "size-1}) x optional second crash of the re-run; write faults fail/tear at first, middle, second-to-last, last write",
         trusted_base=LEAN_TB + ["tokio::fs::File write-behind semantics (modelled from the tokio source)", "the LD_PRELOAD shim (harness/shim/iofault.c)"],
@@ -279,7 +279,7 @@ PROPS = {
         level="proof",
         needs_bita=True,
         required_theorems=["fetch_exact", "unchanged_tail_not_fetched", "scan_starts_at_zero_fact", "clone_steps_as_modelled"],
-        suites=dict(quick=[("py", "c02_seeds"), ("l1", "c03"), ("l1", "c07")], thorough=[("py", "c02_seeds"), ("l1", "c03"), ("l1", "c07")]),
+        suites=dict(quick=[("py", "c02_seeds"), ("l1", "c03"), ("l1", "c07"), ("l1", "c08-http")], thorough=[("py", "c02_seeds"), ("l1", "c03"), ("l1", "c07"), ("l1", "c08-http")]),
         rule="as C02; compared: the exact list of fetched (offset,size) ranges beyond the header; oracles: no range twice, nothing fetched when "
              "a seed is the source or the output already holds it (regular file and block device)",
         trusted_base=LEAN_TB + ["strace"],
